@@ -118,9 +118,8 @@ func cmdWorker(args []string) int {
 		perProc = uint64(*rpp)
 	}
 	kn := loadKnown(*known, *prop)
-	loadSites("")
-	if len(sitesTable) > 0 {
-		simrt.SiteHits = make([]uint32, len(sitesTable))
+	if n, _ := strconv.Atoi(os.Getenv("SIMCHECK_NSITES")); n > 0 {
+		simrt.SiteHits = make([]uint32, n)
 	}
 	out := bufio.NewWriterSize(os.Stdout, 1<<16)
 	stats := newStats()
